@@ -53,6 +53,11 @@ FloatForms == << [lit |-> "0", f32 |-> <<0,0,0,0>>, f64 |-> <<0,0,0,0,0,0,0,0>>]
                  [lit |-> "1.5", f32 |-> <<0,0,192,63>>, f64 |-> <<0,0,0,0,0,0,248,63>>],
                  [lit |-> "-2.25", f32 |-> <<0,0,16,192>>, f64 |-> <<0,0,0,0,0,0,2,192>>],
                  [lit |-> "0.1", f32 |-> <<205,204,204,61>>, f64 |-> <<154,153,153,153,153,153,185,63>>],
+                 \* forms the tokenizer classifies as integer literals, and exponents
+                 [lit |-> "1e5", f32 |-> <<0,80,195,71>>, f64 |-> <<0,0,0,0,0,106,248,64>>],
+                 [lit |-> "0x10", f32 |-> <<0,0,128,65>>, f64 |-> <<0,0,0,0,0,0,48,64>>],
+                 [lit |-> "-3", f32 |-> <<0,0,64,192>>, f64 |-> <<0,0,0,0,0,0,8,192>>],
+                 [lit |-> "1.5e3", f32 |-> <<0,128,187,68>>, f64 |-> <<0,0,0,0,0,112,151,64>>],
                  [lit |-> "inf", f32 |-> <<0,0,128,127>>, f64 |-> <<0,0,0,0,0,0,240,127>>],
                  [lit |-> "-inf", f32 |-> <<0,0,128,255>>, f64 |-> <<0,0,0,0,0,0,240,255>>],
                  [lit |-> "nan", f32 |-> <<>>, f64 |-> <<>>] >>
@@ -149,7 +154,16 @@ OpDefs == [j \in 1..Len(OpForms) |->
 -----------------------------------------------------------------------------
 AllConsts == IntConsts \o FloatConsts \o StringConsts \o OtherConsts
 PlainEnums == [i \in 1..Len(IntTypes) |-> PlainEnum(i)]
-FlagEnums == [q \in 1..Len(FlagPairs) |-> FlagEnum(FlagPairs[q][1], FlagPairs[q][2])]
+\* enums that come FIRST and define the names A, B and X with other values: a member reference in a later enum means
+\* that enum's own member
+ShadowEnums == <<
+  [item |-> [k |-> "enum", name |-> "Shadow", base |-> "", flags |-> FALSE, doc |-> NoDoc,
+             members |-> << Mem("A", <<"5">>, <<5,0,0,0>>), Mem("B", <<"9">>, <<9,0,0,0>>), Mem("X", <<"77">>, <<77,0,0,0>>) >>],
+   exps |-> << [go |-> "Shadow_A", kind |-> "enum", t |-> "uint32", bits |-> <<5,0,0,0>>, text |-> "Shadow"] >>],
+  [item |-> [k |-> "enum", name |-> "ShadowF", base |-> "", flags |-> TRUE, doc |-> NoDoc,
+             members |-> << Mem("A", <<"16">>, <<16,0,0,0>>), Mem("B", <<"32">>, <<32,0,0,0>>), Mem("X", <<"A", "|", "B">>, <<48,0,0,0>>) >>],
+   exps |-> << [go |-> "ShadowF_X", kind |-> "enum", t |-> "uint32", bits |-> <<48,0,0,0>>, text |-> "ShadowF"] >>] >>
+FlagEnums == ShadowEnums \o [q \in 1..Len(FlagPairs) |-> FlagEnum(FlagPairs[q][1], FlagPairs[q][2])]
 Items == [i \in 1..Len(AllConsts) |-> AllConsts[i].item]
          \o [i \in 1..Len(PlainEnums) |-> PlainEnums[i].item] \o [i \in 1..Len(FlagEnums) |-> FlagEnums[i].item]
          \o [i \in 1..Len(OpDefs) |-> OpDefs[i].item]
